@@ -147,7 +147,10 @@ def run(chk):
             def go(eq_type=eq_type, bare=bare):
                 d_sp, r, m, B = 2, 2, 2, 2
                 d = d_sp + (1 if eq_type == "nonstatio_PDE" else 0)
-                static = OpaqueObj('spinn_static', attrs={'out_shape': (d, r * m)})
+                # the inner separable module is called as module(t, x): its parameter names are read from the repository
+                inner_call = w.find_function_node(SPINN_MOD, "_SPINN.__call__")
+                names = tuple(a.arg for a in inner_call.args.args[1:]) if inner_call is not None else ('t', 'x')
+                static = OpaqueObj('spinn_static', attrs={'out_shape': (d, r * m), 'call_params': names})
                 sp = SPINN.make(d=d, r=r, eq_type=eq_type, m=m, params=Sym('p'), static=static)
                 x = AT((B, d_sp), np.array([[Poly.atom(('F', 'x', (b, j), frozenset())) for j in range(d_sp)] for b in range(B)], dtype=object))
                 t = AT((B, 1), np.array([[Poly.atom(('F', 't', (b,), frozenset()))] for b in range(B)], dtype=object))
